@@ -79,6 +79,20 @@ def opEcMulAdd : List String → String
     | _, _, _, _ => "bad-op"
   | _ => "bad-op"
 
+/-- ec.neg <domain> <P> : `-P` (raw coordinates: the unreduced `-Y`) -/
+def opEcNeg : List String → String
+  | [d, p] => match parseDomain d, parsePt p with
+    | some d, some P => showPt d.curve (neg P)
+    | _, _ => "bad-op"
+  | _ => "bad-op"
+
+/-- ec.negadd <domain> <P> <Q> : `(-P) + Q` -/
+def opEcNegAdd : List String → String
+  | [d, p, q] => match parseDomain d, parsePt p, parsePt q with
+    | some d, some P, some Q => showPt d.curve (add d.curve (neg P) Q)
+    | _, _, _ => "bad-op"
+  | _ => "bad-op"
+
 def opEcEq : List String → String
   | [d, p, q] => match parseDomain d, parsePt p, parsePt q with
     | some d, some P, some Q => "ok " ++ toString (pjEq d.curve P Q)
@@ -138,7 +152,7 @@ def opCurveParams : List String → String
 
 def ecOps : List (String × (List String → String)) :=
   [("curve.params", opCurveParams), ("ec.add", opEcAdd), ("ec.double", opEcDouble), ("ec.mul", opEcMul), ("ec.muladd", opEcMulAdd), ("ec.eq", opEcEq),
-   ("ap.add", opApAdd), ("ap.double", opApDouble), ("ap.neg", opApNeg), ("ap.mul", opApMul),
+   ("ec.neg", opEcNeg), ("ec.negadd", opEcNegAdd), ("ap.add", opApAdd), ("ap.double", opApDouble), ("ap.neg", opApNeg), ("ap.mul", opApMul),
    ("ec.validate", opEcValidate), ("ec.dh", opEcDh)]
 
 end Driver
